@@ -21,4 +21,5 @@ INVARIANTS
   C05_In
   C05_Frame
   C05_NonNegative
+  Compose
   Dump
